@@ -151,11 +151,14 @@ def enum_helpers(seed):
                 op = types.SimpleNamespace(pkg=pkg, ED=ED + "/", observer=_Obs(), env={}, userpriv=False, domain=None)
                 helpers = {n: c(op) for n, c in HELPERS.items()}
                 # entries already in the image at some destinations
-                pre = rnd.sample(["usr/share/x/a.txt", "usr/bin/tool", "etc/b.conf", "usr/lib/libx.so", "usr/bin/a-link"], 2)
+                DESTS = ["usr/share/x/a.txt", "usr/bin/tool", "etc/b.conf", "usr/lib/libx.so", "usr/bin/a-link", "usr/bin/abs-link"]
+                # rounds 1..3: every destination is already taken, by a dangling symlink / a file / a live symlink, and every request runs once
+                fixed_how = {1: "dangling", 2: "file", 3: "symlink"}.get(round_)
+                pre = list(DESTS) if fixed_how else rnd.sample(DESTS[:5], 2)
                 for rel in pre:
                     p = os.path.join(ED, rel)
                     os.makedirs(os.path.dirname(p), exist_ok=True)
-                    how = rnd.choice(("file", "dangling", "symlink"))
+                    how = fixed_how or rnd.choice(("file", "dangling", "symlink"))
                     if how == "file":
                         open(p, "w").write("previous")
                     elif how == "dangling":
@@ -163,7 +166,7 @@ def enum_helpers(seed):
                     else:
                         open(p + ".real", "w").write("link target data")
                         os.symlink(os.path.basename(p) + ".real", p)
-                seq = list(REQS) if round_ == 0 else rnd.sample(REQS, 8)  # round 0: every request once, whatever the seed
+                seq = list(REQS) if round_ <= 3 else rnd.sample(REQS, 8)  # rounds 0..3: every request once, whatever the seed
                 for hname, opts, args, expect in seq:
                     cases += 1
                     before = snapshot(ED)
